@@ -29,6 +29,7 @@ print(','.join(sorted(cl)))
 PY
 )
   echo "$NAME $P exit=$RC violations=$V nofailinginput=$NF clauses=$CL"
+  rm -rf "$OUT/build"   # binaries and raw outputs: several GB per run; logs and replays stay
 done
 git -C /repo worktree remove --force "$WT"
 flock $VR/.check.lock sh -c "cd $VR/harness && VERIF_REPO=/repo sh gen_gomod.sh"; git -C $VR checkout -- lean/ElysModel/Gen 2>/dev/null
